@@ -91,6 +91,8 @@ func runC11(c *Ctx) {
 				nStores++
 				ok1, _ := c.factMatch(in, `^builtin:len\(strings\.Split\(.*,"="\)\) == [12]$`)
 				R.Ob(c.siteKey(in, "parameter stored only for 1 or 2 pieces"), c.P.InstrPos(in), ok1, "a parameter is stored without the piece count being exactly 1 or 2")
+				// ESMTP keywords are case-insensitive: the handlers' switches compare with upper-case constants
+				R.Ob(c.siteKey(in, "keyword stored upper-cased"), c.P.InstrPos(in), strings.HasPrefix(describe(mu.Key), "strings.ToUpper("), "parameter keyword stored as "+describe(mu.Key)+": a lower-case keyword of a well-formed line (size=, body=) is treated as unknown")
 			}
 		})
 		R.Ob("parseArgs/stores parameters", c.P.Pos(f.Pos()), nStores >= 2, fmt.Sprintf("%d parameter stores", nStores))
